@@ -21,6 +21,35 @@ func init() {
 }
 
 func c03Body(c EngineCfg, id string, variant int) *quickfix.Message {
+	if variant == 3 {
+		// MarketDataRequest: the group count 146 sorts before every other body field, and the 267
+		// group is the last thing in the body
+		m := quickfix.NewMessage()
+		m.Header.SetString(quickfix.Tag(35), "V")
+		m.Body.SetString(quickfix.Tag(262), "REQ"+id)
+		m.Body.SetString(quickfix.Tag(263), "1")
+		m.Body.SetString(quickfix.Tag(264), "0")
+		if len(id)%2 == 0 {
+			m.Body.SetString(quickfix.Tag(265), "0") // something after the 267 group in some messages? no: 265 < 267
+		}
+		g := quickfix.NewRepeatingGroup(quickfix.Tag(146), quickfix.GroupTemplate{quickfix.GroupElement(55), quickfix.GroupElement(65)})
+		for i := 0; i < 2; i++ {
+			e := g.Add()
+			e.SetString(quickfix.Tag(55), fmt.Sprintf("SYM%d", i))
+			if i == 0 {
+				e.SetString(quickfix.Tag(65), "A")
+			}
+		}
+		m.Body.SetGroup(g)
+		t := quickfix.NewRepeatingGroup(quickfix.Tag(267), quickfix.GroupTemplate{quickfix.GroupElement(269)})
+		t.Add().SetString(quickfix.Tag(269), "0")
+		t.Add().SetString(quickfix.Tag(269), "1")
+		m.Body.SetGroup(t)
+		if len(id)%3 == 0 {
+			m.Body.SetString(quickfix.Tag(547), "Y") // a field after the last group
+		}
+		return m
+	}
 	m := quickfix.NewMessage()
 	m.Header.SetString(quickfix.Tag(35), "D")
 	set := func(t int, v string) { m.Body.SetString(quickfix.Tag(t), v) }
@@ -102,7 +131,7 @@ func runC03(env *Env, tier string) {
 	}
 	maxVariant := 1
 	if !dict || c.BeginString == "FIX.4.4" {
-		maxVariant = 2
+		maxVariant = 3
 	}
 
 	// ---------------------------------------------------------------- phase 1: history
